@@ -163,7 +163,10 @@ let eval_e2e fs =
     | RPanic -> panicked := true; note "PANIC"; None
     | RStuck -> None in
   (* FetchMessage that returned something: begin, then take until an item passes the filter *)
+  (* a FetchMessage call of the real run that gave up (context expired) before this point *)
+  let abort_call () = (match (!st).r_call with Some _ -> ignore (step LAbort) | None -> ()) in
   let fetch_message () =
+    abort_call ();
     ignore (step LBegin);
     let rec loop n =
       if n = 0 then None else
@@ -183,7 +186,14 @@ let eval_e2e fs =
   let toks = let e = get fs "ev" in if e = "." || e = "" then [] else split_on ',' e in
   List.iter (fun tok ->
     match String.split_on_char ':' tok with
+    | ["P"; off; lag] ->
+      (* Reader.Offset() / Reader.Lag() as the user saw them *)
+      if hex_of_z (!st).r_offset <> off then
+        note (Printf.sprintf "OFFSET model %s real %s" (hex_of_z (!st).r_offset) off);
+      if hex_of_z (!st).r_lag <> lag then
+        note (Printf.sprintf "LAG model %s real %s" (hex_of_z (!st).r_lag) lag)
     | "S" :: o :: _ ->
+      abort_call ();
       let o = z_of_hex o in
       let restarted = ((!st).r_offset <> o) in
       ignore (step (LSetOffset o));
@@ -203,6 +213,7 @@ let eval_e2e fs =
        | Some (OErr e) -> delivered := ("E" ^ str_err e) :: !delivered
        | None -> delivered := "NONE" :: !delivered)
     | ["I"; g; _conn; f1; l1; f2; l2] ->
+      abort_call ();
       ignore (step LBegin);
       ignore (step (LGen (gen_of g, GInit (z_of_hex f1, z_of_hex l1, z_of_hex f2, z_of_hex l2), kall)))
     | ["X"; g] ->
